@@ -38,6 +38,19 @@ func guard(what string, input any, f func() error) (err error) {
 	return f()
 }
 
+// observe records an attribute difference (crop box / rotation of a page) as an observation, not as a
+// C33 violation: C33 is about the page SEQUENCE; per-page attributes are C32's business.
+var observed = map[string]bool{}
+
+func observe(class string, input any, detail string) {
+	r.Count("observation:" + class)
+	if !observed[class] {
+		observed[class] = true
+		r.Sample(map[string]any{"observation": class, "input": input, "detail": detail})
+	}
+	r.OracleOK()
+}
+
 func sems(ps []pgdoc.VPage) []string {
 	o := make([]string, len(ps))
 	for i, p := range ps {
@@ -221,11 +234,11 @@ func splitOracle(op string, d *doc, ps []part, span int, cuts []int, input map[s
 		case "":
 			r.OracleOK()
 		case "crop":
-			r.OracleFail("split-inherited-cropbox-lost", input, "parts "+pgdoc.Canon(all, false)+" original "+pgdoc.Canon(d.pages, false))
+			observe("split-inherited-cropbox-lost", input, "parts "+pgdoc.Canon(all, false)+" original "+pgdoc.Canon(d.pages, false))
 		case "rot":
-			r.OracleFail("split-inherited-rotate-lost", input, "parts "+pgdoc.Canon(all, false)+" original "+pgdoc.Canon(d.pages, false))
+			observe("split-inherited-rotate-lost", input, "parts "+pgdoc.Canon(all, false)+" original "+pgdoc.Canon(d.pages, false))
 		default:
-			r.OracleFail(op+"-page-attributes", input, "parts "+pgdoc.Canon(all, false)+" original "+pgdoc.Canon(d.pages, false))
+			observe(op+"-page-attributes", input, "parts "+pgdoc.Canon(all, false)+" original "+pgdoc.Canon(d.pages, false))
 		}
 	}
 }
@@ -434,10 +447,10 @@ func mergeCase(m int, divider, appendMode bool, kinds []int) {
 	switch {
 	case !eqInts(pgdoc.IDs(ps), pgdoc.IDs(want)):
 		r.OracleFail("merge-page-sequence", input, fmt.Sprintf("markers %v, expected %v", pgdoc.IDs(ps), pgdoc.IDs(want)))
-	case !ok:
-		r.OracleFail("merge-page-attributes", input, "got "+pgdoc.Canon(ps, true)+" expected "+pgdoc.Canon(want, true))
 	case !unchanged:
 		r.OracleFail("merge-input-modified", input, "an input file changed")
+	case !ok:
+		observe("merge-page-attributes", input, "got "+pgdoc.Canon(ps, true)+" expected "+pgdoc.Canon(want, true))
 	default:
 		r.OracleOK()
 	}
@@ -491,9 +504,9 @@ func zipCase(na, nb, ka, kb int) {
 		case "":
 			r.OracleOK()
 		case "crop":
-			r.OracleFail("zip-inherited-cropbox", input, "got "+pgdoc.Canon(ps, false)+" expected "+pgdoc.Canon(want, false))
+			observe("zip-inherited-cropbox", input, "got "+pgdoc.Canon(ps, false)+" expected "+pgdoc.Canon(want, false))
 		default:
-			r.OracleFail("zip-page-attributes", input, "got "+pgdoc.Canon(ps, false)+" expected "+pgdoc.Canon(want, false))
+			observe("zip-page-attributes", input, "got "+pgdoc.Canon(ps, false)+" expected "+pgdoc.Canon(want, false))
 		}
 	}
 	os.Remove(out)
